@@ -762,6 +762,11 @@ def gen_case(rng, i):
         n = int(rng.integers(2, 4))
         k = int(rng.integers(1, n + 1))
         modes = [int(x) for x in rng.choice(n, k, replace=False)]
+        cyc = rng.random() < 0.3
+        if cyc:
+            # all three modes in a cyclic order: the only mode lists whose sorting permutation is not its own inverse
+            n = k = 3
+            modes = [[1, 2, 0], [2, 0, 1]][int(rng.integers(2))]
         meas = {"kind": "fock", "modes": modes}
         rr = rng.random()
         if rr < 0.3:
@@ -770,7 +775,8 @@ def gen_case(rng, i):
             meas["dark"] = [float(x) for x in rng.uniform(0.1, 1.0, k)]
         return {"kind": "single", "n": n, "cmds": prior_cmds(rng, n, True, mixed=bool(rng.integers(2))), "meas": meas,
                 "backend": "fock", "conf": {"cutoff_dim": 8 if n == 2 else 6, "pure": bool(rng.integers(2))}, "hbar": hbar,
-                "pick": float(rng.uniform(0.02, 0.98))}
+                # (the scripted draw is the outcome at this quantile: high quantiles give unequal, non-zero photon numbers)
+                "pick": float(rng.uniform(0.6, 0.995)) if cyc else float(rng.uniform(0.02, 0.98))}
     if r in (7, 8):  # gaussian photon counting / threshold
         n = int(rng.integers(2, 5))
         k = int(rng.integers(1, n + 1))
